@@ -20,14 +20,20 @@ def kw(ns, name, body):
     return f"%{name}" if body == "probe" else f"%{name}_in_{tag(ns)}"
 
 
-def leaf_texts(case, probe):
-    """(keyword, text) of every rule with a body of its own: what a reference may end up matching."""
+def leaf_texts(case, probe, name=None):
+    """(keyword, text) of every rule with a body of its own that a reference to `name` may end up matching:
+    the rules of that name in any file, and the rules named in the body of an alias rule of that name."""
+    names = {name} | {t for g in case["files"] for n, b, t in g["defs"] if n == name and b == "alias"}
     out = []
     for g in case["files"]:
         if probe:
+            if name is not None and g["rules"][0] != name:
+                continue
             out.append((kw(g["ns"], g["rules"][0], "probe"), kw(g["ns"], g["rules"][0], "probe") + " nil"))
             continue
         for n, b, _t in g["defs"]:
+            if name is not None and n not in names:
+                continue
             if b == "common":
                 out.append((kw(g["ns"], n, b), kw(g["ns"], n, b) + " 1"))
             elif b == "match":
@@ -120,9 +126,9 @@ def observe(case, root):
                 seen.setdefault(f"{ns}.{name}", {})[0] = None
     res, qres = [], []
 
-    def parse_chains(toks, key, probe):
+    def parse_chains(toks, key, probe, name):
         chains = []
-        for word, text in leaf_texts(case, probe):
+        for word, text in leaf_texts(case, probe, name):
             try:
                 model = mm.model_from_str(" ".join(toks + [key, text]))
             except Exception:
@@ -141,13 +147,13 @@ def observe(case, root):
         for n in f["refs"]:
             attr = pcls._tx_attrs.get("u_" + n) if pcls is not None else None
             linked = attr.cls._tx_fqn if attr is not None and hasattr(attr.cls, "_tx_fqn") else "?"
-            res.append([f["ns"], n, linked, parse_chains(toks, "u_" + n, n.startswith("P"))])
+            res.append([f["ns"], n, linked, parse_chains(toks, "u_" + n, n.startswith("P"), n)])
         for k, (qns, qname, form) in enumerate(f["qrefs"], 1):
             an = ("r" if form == "obj" else "q") + str(k)
             attr = pcls._tx_attrs.get(an) if pcls is not None else None
             linked = attr.cls._tx_fqn if attr is not None and hasattr(attr.cls, "_tx_fqn") else "?"
             qres.append([f["ns"], f"{qns}.{qname}", form, linked,
-                         parse_chains(toks, an, False) if form == "rule" else ""])
+                         parse_chains(toks, an, False, qname) if form == "rule" else ""])
     classes = []
     for ns in loaded:
         for name, cls in mm.namespaces[ns].items():
